@@ -485,14 +485,21 @@ impl Space for VerIterSpace {
                         let mut worst = 0u64;
                         let mut over = 0u64;
                         if def {
+                            let hint = VerDefIterator::new(e, class, count, start, &b).size_hint();
                             for (vd, auxes) in VerDefIterator::new(e, class, count, start, &b) {
                                 items += 1;
                                 let mut n = 0u64;
+                                let ah = auxes.size_hint();
+                                let mut aux_done = true;
                                 for _ in auxes {
                                     n += 1;
                                     if n > cap {
+                                        aux_done = false;
                                         break;
                                     }
+                                }
+                                if aux_done {
+                                    crate::driver::hint_ok(ah, n as usize, "VerDefAuxIterator");
                                 }
                                 if n > vd.vd_cnt as u64 {
                                     over = 1;
@@ -502,15 +509,25 @@ impl Space for VerIterSpace {
                                     break;
                                 }
                             }
+                            if items <= cap {
+                                crate::driver::hint_ok(hint, items as usize, "VerDefIterator");
+                            }
                         } else {
+                            let hint = VerNeedIterator::new(e, class, count, start, &b).size_hint();
                             for (vn, auxes) in VerNeedIterator::new(e, class, count, start, &b) {
                                 items += 1;
                                 let mut n = 0u64;
+                                let ah = auxes.size_hint();
+                                let mut aux_done = true;
                                 for _ in auxes {
                                     n += 1;
                                     if n > cap {
+                                        aux_done = false;
                                         break;
                                     }
+                                }
+                                if aux_done {
+                                    crate::driver::hint_ok(ah, n as usize, "VerNeedAuxIterator");
                                 }
                                 if n > vn.vn_cnt as u64 {
                                     over = 1;
@@ -519,6 +536,9 @@ impl Space for VerIterSpace {
                                 if items > cap {
                                     break;
                                 }
+                            }
+                            if items <= cap {
+                                crate::driver::hint_ok(hint, items as usize, "VerNeedIterator");
                             }
                         }
                         items.max(worst) | (((items > count) as u64) | over) << 40
